@@ -105,7 +105,7 @@ func checkC10(e *RunEnv) *CheckResult {
 	}
 	spec := &Spec{
 		Seeds: []Seed{{"S0", seedS0()}, {"S1", seedS1()}, {"S2", seedS2()}},
-		Depth: e.pick(3, 4),
+		Depth: e.depth(3, 4),
 		Steps: func(n *Node) []Step {
 			a := n.Abs()
 			t := stateTags(a)
